@@ -379,6 +379,9 @@ class Simulator(BaseSimObj):
         )
 
         attribute_dict["start"] = self.start.strftime("%H:%M:%S.%f %d%m%Y")
+        # Keep the UTC offset of a timezone-aware start.
+        if self.start.utcoffset() is not None:
+            attribute_dict["start"] += self.start.strftime(" %z")
 
         try:
             json.dumps(self.signals)
@@ -472,7 +475,11 @@ class Simulator(BaseSimObj):
             )
             scheduler = BaseAlgorithm()
 
-        start = datetime.strptime(attribute_dict["start"], "%H:%M:%S.%f %d%m%Y")
+        start_format = "%H:%M:%S.%f %d%m%Y"
+        if len(attribute_dict["start"].split(" ")) > 2:
+            # The start was timezone-aware: its UTC offset follows the date.
+            start_format += " %z"
+        start = datetime.strptime(attribute_dict["start"], start_format)
 
         out_obj = cls(
             network,
